@@ -381,17 +381,30 @@ func (e *Engine) keyEq(a, b Value) *T {
 }
 
 func (e *Engine) mapLookup(st *St, m *MapV, k Value, elem types.Type) (Value, *T) {
-	mc, _ := e.mapContent(st, m)
 	var res Value = e.Zero(elem)
 	present := e.S.False
-	for i := len(mc.E) - 1; i >= 0; i-- {
-		en := mc.E[i]
-		c := e.S.And(en.P, e.keyEq(k, en.K))
-		if c.IsFalse() {
+	for ai := len(m.Ref.Alts) - 1; ai >= 0; ai-- {
+		a := m.Ref.Alts[ai]
+		if a.Obj == 0 || e.S.And(st.pc, a.G).IsFalse() {
 			continue
 		}
-		res = e.Merge(c, en.V, res)
-		present = e.S.Or(present, c)
+		mc := e.heapGet(st.heap, a.Obj).(*MapC)
+		var r Value = e.Zero(elem)
+		pr := e.S.False
+		for i := len(mc.E) - 1; i >= 0; i-- {
+			en := mc.E[i]
+			c := e.S.And(en.P, e.keyEq(k, en.K))
+			if c.IsFalse() {
+				continue
+			}
+			r = e.Merge(c, en.V, r)
+			pr = e.S.Or(pr, c)
+		}
+		if len(m.Ref.Alts) == 1 {
+			return r, pr
+		}
+		res = e.Merge(a.G, r, res)
+		present = e.S.Ite(a.G, pr, present)
 	}
 	return res, present
 }
